@@ -55,9 +55,11 @@ claim("C11", "Theorem C11: the all-matches result on the stream is the text of a
       "C11_nonNull, C11_first." + COMMON, "DESIGN.md 0.2, 7 C11", "Patterns that can match the empty sequence are outside the quantifier.")
 claim("C12", "Theorems C12_bool_iff_list, C12_first_is_prefix_of_all, C12_address_only, C12_verdict_mode_independent for every regex and stream; "
       "the equations are also checked on the real outputs in all 8 mode combinations." + COMMON, "DESIGN.md 0.2, 7 C12")
-claim("C13", "Theorems C13 / C13_passes (the expander's passes = sequential manual inlining), C13_uses_independent, C13_files; on the real code: "
+claim("C13", "Theorems C13 / C13_passes (the expander's passes = sequential manual inlining, for item macros, string macros and parameterised macros: "
+      "a use of a parameterised macro = the body with the call's arguments substituted simultaneously for the formals, C13_param_uses, C13_param_sequential), "
+      "C13_uses_independent, C13_files, C13_rule; on the real code: "
       "regex of the macro rule = regex of the inlined rule for random factorings, definitions deep-compared before/after." + COMMON,
-      "DESIGN.md 0.2, 7 C13", "Parameterised macros and Python object aliasing: correspondence only.")
+      "DESIGN.md 0.2, 7 C13", "Parameterised macros: hygienic calls (each formal bound once, no formal inside an argument or as a dict key of the body); Python object aliasing: correspondence only.")
 claim("C14", "Theorems C14_step, C14 (any history), C14_idempotent on the modelled singleton; operation sequences in one interpreter vs a fresh "
       "interpreter each on the real code." + COMMON, "DESIGN.md 0.2, 7 C14", "Interpreter-level state outside JASMConfig: fresh-process comparison only.")
 claim("C15", "Theorems C15_args, C15_route, C15_objdump_failure; binary route vs text route on objdump's own output for random multi-section "
